@@ -121,6 +121,9 @@ def StrIndexOf(input_string, substring, startIndex):
         s = input_string.value
         t = substring.value
         i = startIndex.value
+        if i > len(s):
+            # past the end nothing is found, not even the empty string
+            return BVV(-1, 64)
         return BVV(i + s[i:].index(t), 64)
     except ValueError:
         return BVV(-1, 64)
@@ -135,10 +138,12 @@ def StrToInt(input_string):
     :return BV:                     bitvector of the integer resulting from the string or -1 in
                                     bitvector if the string cannot be transformed into an integer
     """
-    try:
-        return BVV(int(input_string.value), 64)
-    except ValueError:
-        return BVV(-1, 64)
+    # SMT-LIB str.to_int: only a non-empty string of the ASCII digits 0-9 denotes a number; int() also accepts
+    # signs, surrounding white space, underscores and non-ASCII digits
+    value = input_string.value
+    if value and value.isascii() and value.isdigit():
+        return BVV(int(value), 64)
+    return BVV(-1, 64)
 
 
 def StrIsDigit(input_string):
